@@ -483,6 +483,42 @@ impl Slave {
                 b.extend_from_slice(&t);
                 b
             }
+            ByzShape::Nested => {
+                let inner = match decoded.clone() {
+                    Some(Frame::Data { da, sa, dsap, ssap, fc, pdu }) => wire::encode(&Frame::Data {
+                        da,
+                        sa,
+                        dsap,
+                        ssap,
+                        fc,
+                        pdu: pdu.iter().map(|b| b ^ 0xA5).collect(),
+                    }),
+                    _ => good.clone(),
+                };
+                if inner.len() + 3 <= 240 {
+                    let mut pdu = vec![0x00, 0x01];
+                    pdu.extend_from_slice(&inner);
+                    pdu.push(0x02);
+                    let mut outer = wire::encode(&Frame::Data {
+                        da: self.master.unwrap_or(0),
+                        sa: addr,
+                        dsap: None,
+                        ssap: None,
+                        fc: wire::fc_response(0, 8),
+                        pdu,
+                    });
+                    let n = outer.len();
+                    outer[n - 2] ^= 0x01;
+                    outer
+                } else {
+                    let mut b = good.clone();
+                    let n = b.len();
+                    if n >= 2 {
+                        b[n - 2] ^= 0x01;
+                    }
+                    b
+                }
+            }
             ByzShape::ReadyDiag => match decoded {
                 Some(Frame::Data { da, sa, dsap, ssap: Some(60), fc, mut pdu }) if pdu.len() >= 6 => {
                     pdu[0] &= !(0x02 | 0x04 | 0x40);
